@@ -29,7 +29,7 @@ Proof.
   - apply tbind_ok in Hc as (c0 & Hc0 & Hc). inversion Hc; subst cc.
     destruct (compile a) as [c1|] eqn:E; [|discriminate]. inversion Hq; subst c.
     cbn. apply (IH c0 c1 Hs Hc0 eq_refl). exact Hl.
-  - apply andb_prop in Hs as [Hs _]. apply andb_prop in Hs as [Hs _].
+  - apply andb_prop in Hs as [Hs _].
     apply tbind_ok in Hc as (c0 & Hc0 & Hc). unfold upd_mutate in Hc.
     apply tbind_ok in Hc as (nc & _ & Hc). inversion Hc; subst cc.
     destruct (compile a) as [c1|] eqn:E; [|discriminate]. inversion Hq; subst c.
@@ -82,8 +82,8 @@ Proof.
   - exact Hs.
   - apply andb_prop in Hs as [Hs H1]. apply andb_prop in Ha as [Ha _]. rewrite (IH Hs Ha). exact H1.
   - apply andb_prop in Ha as [Ha _]. exact (IH Hs Ha).
-  - apply andb_prop in Hs as [Hs H2]. apply andb_prop in Hs as [Hs H1]. apply andb_prop in Ha as [Ha _].
-    rewrite (IH Hs Ha), H1. exact H2.
+  - apply andb_prop in Hs as [Hs H2]. apply andb_prop in Ha as [Ha _].
+    rewrite (IH Hs Ha). exact H2.
   - (* filter *)
     apply andb_prop in Hs as [Hs H2]. apply andb_prop in Hs as [Hs H1]. apply andb_prop in Ha as [Ha Hp].
     rewrite (IH Hs Ha), H1. cbn.
